@@ -371,6 +371,11 @@ def _run(check: Check, args, t0: float) -> int:
             known_matched.append(sig)
             print(f"KNOWN-FINDING: property={check.id} {sig} ({persig[sig]} cases) - {k.get('description', '')}")
             continue
+        if spent > 1200 and new_viols:
+            # (the run has reported violations with verified replay files already and the budget of the verdict phase is used up: a
+            # tree that breaks the property in dozens of ways would otherwise take hours; the further signatures are named, not replayed)
+            print(f"NOTE check={check.id}: {sig} ({persig[sig]} cases) seen too; not replayed (verdict-phase budget used up after {len(new_viols)} reported violations)")
+            continue
         path = None
         # stored cases of this signature (a spread over the run, see _run_slice): the first that replays in a fresh interpreter is
         # reported; candidates are tried from both ends and the middle so that a state-dependent prefix does not use up the attempts
